@@ -193,12 +193,15 @@ class _PythonFnFactory(object):
     factory_code = self._unbound_factory.__code__
     factory_freevars = factory_code.co_freevars
     closure_map = dict(zip(self._freevars, closure))
-    factory_closure = tuple(
-        closure_map[name] for name in factory_code.co_freevars)
-    if len(factory_closure) != len(closure):
+    # Note: the transformed code may reference fewer free variables than the
+    # source function (e.g. when the only use was a directive call, which is
+    # removed), but never more.
+    if not set(factory_freevars) <= set(closure_map):
       raise ValueError(
           'closure mismatch, requested {}, but source function had {}'.format(
-              self._freevars, factory_freevars))
+              factory_freevars, self._freevars))
+    factory_closure = tuple(
+        closure_map[name] for name in factory_code.co_freevars)
 
     bound_factory = types.FunctionType(
         code=factory_code,
